@@ -226,14 +226,15 @@ def noPruningPossible (poly : Array (V2 Rat)) : Bool :=
   poly.all (fun v => (v.x * 4).den == 1 && (v.y * 4).den == 1) && decide (sqDiam poly < 300)
 
 /-- common judgement of a list of convex pieces against the area `A` they must tile; `tol` = allowed area deficit -/
-def judgePieces (poly : Array (V2 Rat)) (A tol sl : Rat) (P : List (List (V2 Rat))) : String :=
+def judgePieces (poly : Array (V2 Rat)) (A : Rat) (tol : Unit → Rat) (sl : Rat) (P : List (List (V2 Rat))) : String :=
   if P.any (fun p => p.length < 3) then "fail piece-with-fewer-than-3-vertices" else
   if P.any (fun p => p.any fun v => !(isVertexOf poly v)) then "fail piece-vertex-not-an-input-vertex" else
   if !(P.all (isConvexCcw sl)) then "fail piece-not-convex-ccw" else
   if !(allDisjoint sl P) then "fail pieces-overlap" else
   let S := (P.map shoelace2).foldl (· + ·) 0
   if S > A + sl * P.length then "fail area-exceeds-input" else
-  if A - S > tol then s!"fail area-not-conserved deficit2={A - S}" else "pass"
+  if A - S ≤ 0 then "pass" else   -- (the allowance is only evaluated when there is a deficit)
+  if A - S > tol () then s!"fail area-not-conserved deficit2={A - S}" else "pass"
 
 def oracleHMPts (poly : Array (V2 Rat)) (tris : Array (Nat × Nat × Nat)) (out : List String) : String :=
   let n := poly.size
@@ -248,7 +249,7 @@ def oracleHMPts (poly : Array (V2 Rat)) (tris : Array (Nat × Nat × Nat)) (out 
   | _ =>
     match run (do let p ← plist ppts; pend; pure p) out with
     | none => "fail unparsable-output"
-    | some pieces => judgePieces poly A 0 (slackOf poly) (pieces.map fun p => p.map q2)
+    | some pieces => judgePieces poly A (fun _ => 0) (slackOf poly) (pieces.map fun p => p.map q2)
 
 /-- unit outward normals of a counter-clockwise polygon shape (the normal of a kept vertex is the one of its *original*
 outgoing edge, which pruning leaves within `2e-4` rad of the kept edge) -/
@@ -261,21 +262,69 @@ def normalsOk (pts nrm : List (V2 Rat)) : Bool :=
     decide ((n.dot d) * (n.dot d) ≤ (d.dot d) / 1000000) &&
     decide (d.x * n.y - d.y * n.x < 0)
 
+/-- the corner `a → v → c` is straight up to ~1e-3 rad (`from_convex_polyline` prunes below 1.73e-4 rad) -/
+def nearlyStraight (a v c : V2 Rat) : Bool :=
+  let e := v.sub a; let f := c.sub v
+  let cr := e.x * f.y - e.y * f.x
+  decide (e.dot f > 0) && decide (cr * cr * 1000000 ≤ (e.dot e) * (f.dot f))
+/-- the interior angle at `v` is within ~1e-2 rad of 2π (a needle-shaped notch: all pieces meeting at `v` may have a
+nearly straight corner there) -/
+def nearlyFullReflex (a v c : V2 Rat) : Bool :=
+  let e := v.sub a; let f := c.sub v
+  let cr := e.x * f.y - e.y * f.x
+  decide (e.dot f < 0) && decide (cr ≤ 0) && decide (cr * cr * 10000 ≤ (e.dot e) * (f.dot f))
+
+/-- **vertex coverage**: in a tiling of a simple polygon by convex pieces whose vertices are polygon vertices, every polygon
+vertex is a vertex of some piece.  `from_convex_polyline` may only prune nearly straight corners; a piece corner at a convex
+polygon vertex turns at least as much as the polygon does, and at a reflex vertex at least two pieces meet, so only vertices
+with a nearly straight corner (or an interior angle of nearly 2π) may be missing from every shape. -/
+def uncoveredVertex (poly : Array (V2 Rat)) (P : List (List (V2 Rat))) : Option Nat :=
+  let n := poly.size
+  (List.range n).find? fun i =>
+    let a := poly.getD ((i + n - 1) % n) ⟨0,0⟩; let v := poly.getD i ⟨0,0⟩; let c := poly.getD ((i + 1) % n) ⟨0,0⟩
+    !(nearlyStraight a v c) && !(nearlyFullReflex a v c) && !(P.any fun p => p.any fun w => w.x == v.x && w.y == v.y)
+
+/-- upper bound of the area (×2) that pruning nearly collinear vertices can remove from the pieces: a pruned chain between
+two kept neighbours `u, w` of a shape is a convex cap on the outer side of `u → w`, of area2 at most twice the largest
+`area2(u, v, w)` of its vertices, and the path `u → v → w` turns left by at most the chain's total turn (each pruned corner
+turns < 1.73e-4 rad).  Summed over the input vertices `v` outside a shape edge with such a nearly straight (≤ 1e-2 rad) left
+turn at `v`.  Zero when there is no such vertex: the areas must then add up exactly.  (A vertex at which `u → v → w` turns
+sharply — e.g. the far side of a needle next to the edge — is not a pruned vertex, however close to the edge it is.) -/
+def pruneAllowance (poly : Array (V2 Rat)) (P : List (List (V2 Rat))) : Rat :=
+  P.foldl (fun acc p => (edgesOf p).foldl (fun acc e =>
+    poly.foldl (fun acc v =>
+      let a := v.sub e.1; let b := e.2.sub v
+      let cr := a.x * b.y - a.y * b.x
+      if cr > 0 && a.dot b > 0 && cr * cr * 10000 ≤ (a.dot a) * (b.dot b) then acc + 2 * cr else acc) acc) acc) 0
+
+/-- two input vertices closer than 1e-15: an edge between them has no `ccw_face_normal` (threshold 2.2e-16) -/
+def hasDegenerateEdge (poly : Array (V2 Rat)) : Bool :=
+  let l := poly.toList
+  !(pairwise l fun a b => decide ((b.sub a).dot (b.sub a) * 1000000000000000000000000000000 > 1))
+
+/-- judgement of the compound's shapes against the polygon `poly` (area2 `A` = what the input triangles cover; the vertex
+coverage clause applies when that is the whole polygon) -/
 def oracleDecompose (poly : Array (V2 Rat)) (A : Rat) (out : List String) : String :=
   match out with
   | "panic" :: _ => "fail panic"
   | ["cnone"] =>
-    if noPruningPossible poly then "fail compound-none-for-well-conditioned-tiling"
-    else "skip compound-none(sliver-piece-possible)"
+    -- the property demands a convex tiling of every simple counter-clockwise polygon; the only `None` that is not a wrong
+    -- answer is the one forced by an edge too short to have a unit normal
+    if hasDegenerateEdge poly then "skip compound-none(degenerate-edge)"
+    else "fail compound-none-for-simple-ccw-polygon"
   | "shapes" :: rest =>
     match run (do let p ← pshapes; pend; pure p) rest with
     | none => "fail unparsable-output"
     | some shapes =>
       let P := shapes.map fun s => s.1.map q2
       if !(shapes.all fun s => s.2.isEmpty || normalsOk (s.1.map q2) (s.2.map q2)) then "fail bad-normals" else
-      let tol : Rat := if noPruningPossible poly then 0
-        else ((P.flatMap fun p => (edgesOf p).map fun e => (e.2.sub e.1).dot (e.2.sub e.1)).foldl (· + ·) 0) / 1000
-      judgePieces poly A tol (slackOf poly) P
+      match judgePieces poly A (fun _ => pruneAllowance poly P) (slackOf poly) P with
+      | "pass" =>
+        if A ≠ shoelace2 poly.toList then "pass" else
+        (match uncoveredVertex poly P with
+         | some i => s!"fail polygon-vertex-in-no-piece {i}"
+         | none => "pass")
+      | r => r
   | _ => "fail unparsable-output"
 
 /-- consecutive index triples of a flat index buffer as point triangles -/
